@@ -29,7 +29,9 @@ RULE = ("histories of 1..6 manager start-ups against one device and one PIN file
         "refuse, status error, link error before apply, ack lost after apply, timeout}, file "
         "fault {none, open fails, write fails after truncation}, crash at each step boundary "
         "{unlock, change received, change applied, file open, file write, after write}, for "
-        "Ledger and SGX PIN commands; complete enumeration of all single-start scenarios and of "
+        "Ledger and SGX PIN commands, one scenario in eight through the manager programs "
+        "(manager_ledger.py / manager_sgx.py as __main__, PIN in the environment, -X); complete "
+        "enumeration of all single-start scenarios and of "
         "PIN changes that happen inside a request after a reconnection; PIN generator under a "
         "harness-controlled random source; "
         "non-trivial = history containing a PIN change attempt; distinct by history")
